@@ -59,7 +59,7 @@ def make(pid, judge, nontrivial, classes, quick, thorough, strategy=None, flags=
                 ctx.stats.excluded[k] += n
             nt = nontrivial(m, v)
             ctx.stats.case(key=m.source(), nontrivial=nt, classes=classes(m, v) + (['aligned'] if v.aligned else []),
-                           sample={'src': m.source()} if nt and ctx.stats.evaluations % 400 == 0 else None)
+                           sample={'src': m.source()[len(docgen.PREAMBLE):]})
             for k, n in v.counts.items():
                 ctx.stats.extra[k] = ctx.stats.extra.get(k, 0) + n
         hyp_run(ctx, strategy or docgen.document, check, ctx.n(quick, thorough))
